@@ -253,6 +253,9 @@ LensR(p, pre, m, f, o, r) ==
                   LET w == SentMsgs(o.evs)[i] IN
                   w.k = "msg" /\ w.body.k = "burn" /\ w.body.amt = m.orig.body.amt /\ w.body.tok = m.orig.body.tok
                   /\ w.body.sender = m.orig.body.sender /\ w.nonce = m.orig.nonce
+         \* ... and only a message that itself speaks as the token messenger (a deposit's message) can be replaced that way
+         /\ (res = "ok" /\ m.type = "ReplaceDepositForBurn") =>
+               (m.orig.k = "msg" /\ m.orig.sender = ModulePadded /\ m.orig.src = NOBLE /\ m.orig.body.k = "burn")
          /\ \A i \in DOMAIN SentMsgs(o.evs) :
                LET w == SentMsgs(o.evs)[i] IN
                w.k = "msg" /\ w.sender = (IF m.type \in DepTypes \cup {"ReplaceDepositForBurn"}
